@@ -291,7 +291,17 @@ namespace hgraph
 
         void tsl_map_node_stop(const NodeView &view, DateTime) {
             auto typed = view.as<TslMapNodeView>();
-            MemoryUtils::cast<TslMapNodeStorage>(typed.internal_storage())->stop_and_destroy_noexcept();
+            auto *storage = MemoryUtils::cast<TslMapNodeStorage>(typed.internal_storage());
+            // Every child gets its stop attempt; the first failure is reported to the
+            // caller after all of them (and the storage teardown) have been attempted.
+            FirstExceptionRecorder errors;
+            for (std::size_t index = 0; index < storage->entries.slot_capacity(); ++index) {
+                auto *entry = storage->entries.entry_at(index);
+                if (entry == nullptr || !entry->graph.has_value() || !entry->graph.view().started()) { continue; }
+                errors.capture([&] { entry->graph.view().stop(); });
+            }
+            storage->stop_and_destroy_noexcept();
+            errors.rethrow_if_any();
         }
 
         void validate_tsl_map_node_spec(const NodeTypeMetaData &meta, const TslMapNodeSpec &spec) {
